@@ -176,6 +176,25 @@ impl Property for C08 {
                 }
             }
         }
+        for (i, op) in c.ops.iter().enumerate() {
+            if let Op::EditRestore { file, alt, batch } = op {
+                let texts: Vec<Alt> = match alt {
+                    Alt::Other(t) => wsgen::simplify_text(t).into_iter().map(Alt::Other).collect(),
+                    Alt::Append(t) => wsgen::simplify_text(t).into_iter().filter(|x| !x.trim().is_empty()).map(|x| Alt::Append(x.trim_end().to_string())).collect(),
+                    _ => vec![],
+                };
+                for a in texts {
+                    let mut ops = c.ops.clone();
+                    ops[i] = Op::EditRestore { file: *file, alt: a, batch: *batch };
+                    out.push(Case { ops, ..c.clone() });
+                }
+                if *batch {
+                    let mut ops = c.ops.clone();
+                    ops[i] = Op::EditRestore { file: *file, alt: alt.clone(), batch: false };
+                    out.push(Case { ops, ..c.clone() });
+                }
+            }
+        }
         // file indices are positional (idx over len): dropping a file keeps ops meaningful
         out.extend(wsgen::simplify(&c.ws, 1).into_iter().map(|ws| Case { ws, ..c.clone() }));
         if c.setup.std || c.setup.lib_root {
@@ -212,9 +231,36 @@ impl Property for C08 {
             }
             let d1 = hist::dump_of(&a, &[]);
             let s1 = hist::sizes(&a);
-            Ok((d0, d1, s0, s1, touched))
+            // the same history once more: a leak keeps growing, a one-off growth does not
+            for op in &c.ops {
+                apply(&mut a, &c.ws, op);
+            }
+            let s2 = hist::sizes(&a);
+            // control run for the undo relation: the same history with every edit-restore pair replaced by
+            // a plain re-submission of the same file through the same path.  Whatever the edit-restore run
+            // shows beyond this control is state left behind by the undone edit.
+            let control = if c.ops.iter().any(|o| matches!(o, Op::EditRestore { .. })) {
+                let mut b = hist::fresh(&c.cfg, &c.setup, &c.ws.files, c.reindex_first);
+                for op in &c.ops {
+                    match op {
+                        Op::EditRestore { file, batch, .. } => {
+                            let plain = if *batch { Op::Batch(vec![*file]) } else { Op::Resubmit(*file) };
+                            // an edit-restore analyses the file twice
+                            apply(&mut b, &c.ws, &plain);
+                            apply(&mut b, &c.ws, &plain);
+                        }
+                        other => {
+                            apply(&mut b, &c.ws, other);
+                        }
+                    }
+                }
+                Some((hist::dump_of(&b, &[]), hist::sizes(&b)))
+            } else {
+                None
+            };
+            Ok((d0, d1, s0, s1, s2, touched, control))
         });
-        let (d0, d1, s0, s1, touched) = match r {
+        let (d0, d1, s0, s1, s2, touched, control) = match r {
             Ok(Ok(x)) => x,
             Ok(Err(cat)) => return Verdict::Skip(cat),
             Err(_) => return Verdict::Skip("analysis-panic(C12)".into()),
@@ -230,9 +276,45 @@ impl Property for C08 {
                 Op::EditRestore { .. } => "op:edit-restore",
             });
         }
-        let mut cands = hist::dump_candidates("", &d0, &d1);
-        for (k, before, after) in hist::grown(&s0, &s1) {
-            cands.push((format!("index-growth:{k}"), format!("H1 entry count of {k} grew from {before} to {after} over a history of unchanged re-submissions / edit-restore pairs")));
+        // undo relation first (edit-restore vs plain re-submission), then the re-submission relation
+        let mut cands = vec![];
+        if let Some((dc, sc)) = &control {
+            cands.extend(hist::dump_candidates("undo:", dc, &d1));
+            let grown: Vec<String> = hist::grown(sc, &s1).into_iter().map(|(k, b, a)| format!("{k}: {b} -> {a}")).collect();
+            if !grown.is_empty() {
+                let index = grown[0].split('.').next().unwrap_or("").to_string();
+                cands.push((format!("undo:index-growth:{index}"), format!("an edit-restore history holds more index entries than the same history with plain re-submissions: {}", grown.join(", "))));
+            }
+        }
+        cands.extend(hist::dump_candidates("", &d0, &d1));
+        // one candidate per index (the maps of one index grow together).  Growth that repeats when the
+        // history is replayed a second time is a leak; growth that happens only once means the batch
+        // analysis had left something unresolved that the re-analysis of a single file resolves.
+        let mut leaks: Vec<(String, Vec<String>)> = vec![];
+        for (k, before, after) in hist::grown(&s1, &s2) {
+            // a leak grows in both rounds
+            if s0.iter().find(|x| x.0 == k).map(|x| x.1).unwrap_or(0) >= before {
+                continue;
+            }
+            let index = k.split('.').next().unwrap_or("").to_string();
+            let line = format!("{k}: {} -> {before} -> {after}", s0.iter().find(|x| x.0 == k).map(|x| x.1).unwrap_or(0));
+            match leaks.iter_mut().find(|x| x.0 == index) {
+                Some(e) => e.1.push(line),
+                None => leaks.push((index, vec![line])),
+            }
+        }
+        for (index, lines) in &leaks {
+            cands.push((format!("index-leak:{index}"), format!("H1 entry counts grow with every repetition of a history of unchanged re-submissions / edit-restore pairs (before -> after once -> after twice): {}", lines.join(", "))));
+        }
+        let mut grown_any = hist::grown(&s0, &s1);
+        for g in hist::grown(&s0, &s2) {
+            if !grown_any.iter().any(|x| x.0 == g.0) {
+                grown_any.push(g);
+            }
+        }
+        let once: Vec<String> = grown_any.into_iter().filter(|(k, _, _)| !leaks.iter().any(|l| k.starts_with(&format!("{}.", l.0)))).map(|(k, b, a)| format!("{k}: {b} -> {a}")).collect();
+        if !once.is_empty() {
+            cands.push(("resubmit-resolves-more".to_string(), format!("H1 entry counts grew once (not again on repetition) over a history of unchanged re-submissions / edit-restore pairs: {}", once.join(", "))));
         }
         if let Some((sig, msg)) = hist::select(cands, &local.open) {
             return Verdict::fail(sig, format!("state changed after history {:?}:\n{}", c.ops, msg));
